@@ -58,7 +58,8 @@ RICH_SRC = {
     "a $b {c}": '"a $b {{c}}"',
     "$lead and Ann": '"$lead and {$cv}"',
 }
-RX_INST = {"a": "xa", "b": "b", "^ab": "abz", "c$": "zc", "a.c": "a-c", "x|y": "y"}
+WS_STRS = ["a  b", "x   y  z", " lead", "trail ", "tab\there", "two  ", "a b"]
+RX_INST = {"a  b": "xa  by", "a": "xa", "b": "b", "^ab": "abz", "c$": "zc", "a.c": "a-c", "x|y": "y"}
 
 
 def gen_pat(rng, d, filtered_p=0.01):
@@ -72,6 +73,8 @@ def gen_pat(rng, d, filtered_p=0.01):
         if k == "str":
             if rng.random() < 0.2:
                 return rng.choice(sorted(RICH_SRC))
+            if rng.random() < 0.15:
+                return rng.choice(WS_STRS)  # white-space runs inside the literal are characters like any other
             return rng.choice(["ab", "abc", "b", "xyz", ""])
         if k == "bool":
             return rng.choice([True, False])
@@ -144,6 +147,8 @@ def mutate(rng, v):
             v[kk] = mutate(rng, v[kk])
         return v
     if k == "alter":
+        if isinstance(v, str) and v != " ".join(v.split()) and rng.random() < 0.6:
+            return " ".join(v.split()) if rng.random() < 0.5 else re.sub(r"\s+", " ", v)  # the near miss: white space collapsed
         return "ALT"
     return v
 
